@@ -256,8 +256,12 @@ def matmul(a, b):
     if b.ndim <= 2:
         return dot(a, b)
 
+    # when a is 1-d, dot already puts the remaining axis of b last
+    if a.ndim == 1:
+        return dot(a, b)
+
     # when a is 2-d, we need to transpose result after dot
-    if a.ndim <= 2:
+    if a.ndim == 2:
         res = dot(a, b)
         axes = list(range(res.ndim))
         axes.insert(-1, axes.pop(0))
